@@ -286,7 +286,62 @@ def _geo_par_no_y():
     Parallelogram._contains = _contains
 
 
+def _smp_tri_mirror():
+    import torch
+    from torchphysics.problem.domains.domain2D.triangle import Triangle
+
+    def h(self, d, bary):
+        big = bary.sum(axis=2) >= 1
+        if d:
+            idx = torch.where(torch.logical_not(big))
+            return bary[idx][None, :]
+        idx = torch.where(big)
+        bary[idx] = torch.subtract(torch.tensor([[1.0, 1.5]]), bary[idx])      # mirrored around the wrong point
+        return bary
+    Triangle._handle_sum_greater_1 = h
+
+
+def _smp_trans_twice():
+    from torchphysics.problem.domains.domainoperations.translate import Translate
+    from torchphysics.problem.spaces import Points
+    old = Translate.sample_random_uniform
+
+    def f(self, n=None, d=None, params=Points.empty(), device="cpu"):
+        p = old(self, n=n, d=d, params=params, device=device)
+        _, rp = self._repeat_params(int(len(p) / max(len(params), 1)), params)
+        return Points(p.as_tensor + self.translate_fn(rp).reshape(-1, self.space.dim), self.space)
+    Translate.sample_random_uniform = f
+
+
+def _smp_circle_bd_radius():
+    import torch
+    from torchphysics.problem.domains.domain2D.circle import CircleBoundary
+    from torchphysics.problem.spaces import Points
+    old = CircleBoundary.sample_grid
+
+    def f(self, n=None, d=None, params=Points.empty(), device="cpu"):
+        p = old(self, n=n, d=d, params=params, device=device)
+        c, r = self.domain._compute_center_and_radius(params, device)
+        if len(c) == 1:
+            return Points(c + 0.97 * (p.as_tensor - c), self.space)       # grid points slightly inside the circle line
+        return p
+    CircleBoundary.sample_grid = f
+
+
+def _smp_cut_inverted():
+    import torch
+    from torchphysics.problem.domains.domainoperations import sampler_helper as sh
+    old = sh._check_in_b
+
+    def f(domain_b, params, invert, grid_a):
+        inside_b = domain_b._contains(grid_a, params)
+        return torch.where(inside_b)[0] if len(grid_a) == 7 else old(domain_b, params, invert, grid_a)   # only for one batch size
+    sh._check_in_b = f
+
+
 REGISTRY = {
+    "smp_tri_mirror": _smp_tri_mirror, "smp_trans_twice": _smp_trans_twice, "smp_circle_bd_radius": _smp_circle_bd_radius,
+    "smp_cut_inverted": _smp_cut_inverted,
     "geo_union_and": _geo_union_and, "geo_cut_nonot": _geo_cut_nonot, "geo_translate_sign": _geo_translate_sign,
     "geo_rotate_forward": _geo_rotate_forward, "geo_param_row0": _geo_param_row0, "geo_par_no_y": _geo_par_no_y,
     "pt_slices_off": _pt_slices_off, "pt_join_order": _pt_join_order, "pt_repeat_interleave": _pt_repeat_interleave,
@@ -298,6 +353,7 @@ REGISTRY = {
     "dl_target_perm": _dl_target_perm, "dl_len_floor": _dl_len_floor, "dl_agg_global_mean": _dl_agg_sum,
 }
 BY_PROPERTY = {
+    "C01": ["smp_tri_mirror", "smp_trans_twice", "smp_circle_bd_radius", "smp_cut_inverted"],
     "C05": ["geo_union_and", "geo_cut_nonot", "geo_translate_sign", "geo_rotate_forward", "geo_param_row0", "geo_par_no_y"],
     "C12": ["pt_slices_off", "pt_join_order", "pt_repeat_interleave", "pt_eq_unordered", "sp_prod_nomerge"],
     "C13": ["uf_defaults_head", "uf_pe_nocopy", "uf_positional", "uf_pe_forgets_defaults"],
